@@ -169,13 +169,17 @@ func c11Run(c *vk.Ctx, i int) {
 			return ids
 		}
 		rdir.Observe = monitor.observe
-		if i%6 == 5 {
+		if i%3 == 2 {
 			// one transient I/O error on a snapshot write: the retention invariant must hold across it
 			// (a commit that never reached the disk must not count as one of the N retained ones)
 			var nSnp int64
 			at := int64(3 + i%5)
+			kind := ".snp"
+			if i%6 == 5 {
+				kind = ".seg" // a segment write of the persister fails: its snapshot is still the root then
+			}
 			rdir.Fault = func(opIndex int, p mon.Point) *mon.FaultSpec {
-				if p.Name == "persist" && p.Kind == ".snp" && atomic.AddInt64(&nSnp, 1) == at {
+				if p.Name == "persist" && p.Kind == kind && p.Role == "persister" && atomic.AddInt64(&nSnp, 1) == at {
 					c.Event("transient_snapshot_write_errors_injected", 1)
 					return &mon.FaultSpec{Err: errInjected, AfterBytes: -1}
 				}
@@ -231,7 +235,7 @@ func c11Run(c *vk.Ctx, i int) {
 			probeSecond(fmt.Sprintf("before batch %d", bi))
 		}
 		if err := ww.Batch(b.ToBluge()); err != nil {
-			if i%6 == 5 && strings.Contains(err.Error(), errInjected.Error()) {
+			if i%3 == 2 && strings.Contains(err.Error(), errInjected.Error()) {
 				c.Event("batches_reporting_the_injected_error", 1) // applied, its persist failed once
 			} else {
 				c.Violate("batch-error-after-refused-second-writer", fmt.Sprintf("config %s: batch %d: %v", cfgName, bi, err), nil)
